@@ -25,7 +25,7 @@ def run_battery(fq, tier, seed):
     if not bname:
         return {"function": fq, "battery": None, "evaluations": 0, "failures": [], "skipped": 0}
     rnd = random.Random(seed)
-    b = batteries.REG[bname](tier, rnd)
+    b = batteries.get(bname)(tier, rnd)
     fn = rt.resolve(fq)
     n = ok = skipped = ntimeouts = 0
     failures = []
